@@ -257,8 +257,20 @@ End Checks.
    error it is shown) and panics or not as sbeh_of says; the real slot is stat.Slot, whose
    callbacks are the regenerated ones (C01_leaf_check).  be = the block error of the result
    (what `ruleCheckRet.blockErr` reads), blocked = ruleCheckRet.IsBlocked(). *)
+(* what the model says the real statistic slot does (Gen-free) *)
+Definition pass_spec (rpass : ctx -> nodes_t -> nodes_t) (x : ctx) : Prop :=
+  forall nd, rpass x nd = on_nodes nd x (fun c => node_pass c (x_batch x)).
+Definition block_spec (rblock : ctx -> nodes_t -> nodes_t) (x : ctx) : Prop :=
+  forall nd, rblock x nd = on_nodes nd x (fun c => node_block c (x_batch x)).
+Definition done_spec (rdone : ctx -> Z -> nodes_t -> ctx * nodes_t) (x : ctx) (t : Z) : Prop :=
+  forall nd, rdone x t nd =
+    (set_rt x (t - x_start x), on_nodes nd x (fun c => node_done c (x_batch x) (t - x_start x) (x_err x))).
+
+(* The loops are stated for ANY callbacks rpass / rblock / rdone of the real statistic slot that meet
+   these specifications, and instantiated at the end of the file with the regenerated stat.Slot: the
+   obligations about slot_chain.go do not depend on stat_slot.go being regenerable. *)
 Section Stats.
-Variables (ft : Z).
+Variables (rpass rblock : ctx -> nodes_t -> nodes_t) (rdone : ctx -> Z -> nodes_t -> ctx * nodes_t).
 Fixpoint gen_run_stats (ss : list sslot) (x : ctx) (blocked : bool) (be : option berr) (nd : nodes_t) (lg : list call)
   : nodes_t * list call * bool :=
   match ss with
@@ -266,11 +278,11 @@ Fixpoint gen_run_stats (ss : list sslot) (x : ctx) (blocked : bool) (be : option
   | s :: r =>
       match chain_Entry_stat_step (fun _ => 1) (fun _ => blocked) 1 with
       | (LContinue _, [(26, [])]) =>          (* s.OnEntryPassed(ctx) *)
-          if s_real s then gen_run_stats r x blocked be (snd (slot_acts (stat_OnEntryPassed (x_batch x) ft INB (node_id x)) (x, nd))) lg
+          if s_real s then gen_run_stats r x blocked be (rpass x nd) lg
           else let lg' := LPassed (s_id s) (x_res x) (x_batch x) :: lg in
                match sbeh_of s (x_flag x) with SOk => gen_run_stats r x blocked be nd lg' | SPanic => (nd, lg', true) end
       | (LContinue _, [(27, [LZ _])]) =>      (* s.OnEntryBlocked(ctx, blockErr) *)
-          if s_real s then gen_run_stats r x blocked be (snd (slot_acts (stat_OnEntryBlocked (x_batch x) ft INB (node_id x)) (x, nd))) lg
+          if s_real s then gen_run_stats r x blocked be (rblock x nd) lg
           else match be with
                | Some e =>
                    let lg' := LBlocked (s_id s) (x_res x) (x_batch x) e :: lg in
@@ -281,17 +293,17 @@ Fixpoint gen_run_stats (ss : list sslot) (x : ctx) (blocked : bool) (be : option
       end
   end.
 
-Theorem gen_run_stats_ok ss : forall x be nd lg, x_res x <> NILNODE -> x_inb x = (ft =? 0) ->
+Theorem gen_run_stats_ok ss : forall x be nd lg, pass_spec rpass x -> block_spec rblock x ->
   gen_run_stats ss x (match be with Some _ => true | None => false end) be nd lg = run_stats ss x be nd lg.
 Proof.
   induction ss as [|s r IH]; intros x be nd lg Hr Hi; [reflexivity|].
   cbn [gen_run_stats run_stats]. rewrite chain_Entry_stat_step_ok. unfold a0, aZ.
   destruct be as [e|].
   - destruct (s_real s).
-    + rewrite (stat_OnEntryBlocked_ok x nd ft Hr Hi). cbn [snd]. exact (IH x (Some e) _ lg Hr Hi).
+    + rewrite (Hi nd). exact (IH x (Some e) _ lg Hr Hi).
     + destruct (sbeh_of s (x_flag x)); [exact (IH x (Some e) _ _ Hr Hi) | reflexivity].
   - destruct (s_real s).
-    + rewrite (stat_OnEntryPassed_ok x nd ft Hr Hi). cbn [snd]. exact (IH x None _ lg Hr Hi).
+    + rewrite (Hr nd). exact (IH x None _ lg Hr Hi).
     + destruct (sbeh_of s (x_flag x)); [exact (IH x None _ _ Hr Hi) | reflexivity].
 Qed.
 
@@ -303,7 +315,7 @@ Fixpoint gen_run_done (ss : list sslot) (x : ctx) (t : Z) (nd : nodes_t) (lg : l
       match chain_exit_step with
       | (LContinue _, [(28, [])]) =>
           if s_real s then
-            let '(x', nd') := slot_acts (stat_OnCompleted (x_batch x) (x_err x) ft INB t (x_start x) (node_id x)) (x, nd) in
+            let '(x', nd') := rdone x t nd in
             gen_run_done r x' t nd' lg
           else let lg' := LDone (s_id s) (x_res x) (x_batch x) (x_err x) (ctx_rt x t) :: lg in
                match sbeh_of s (x_flag x) with SOk => gen_run_done r x t nd lg' | SPanic => (nd, lg', true) end
@@ -311,14 +323,16 @@ Fixpoint gen_run_done (ss : list sslot) (x : ctx) (t : Z) (nd : nodes_t) (lg : l
       end
   end.
 
-Theorem gen_run_done_ok ss : forall x t nd lg, x_res x <> NILNODE -> x_inb x = (ft =? 0) ->
-  0 <= x_start x <= t -> t < two63 ->
+(* OnCompleted writes ctx.rt, so the context changes along the loop: the specification is asked for
+   every context that agrees with x on what the statistic slot reads *)
+Theorem gen_run_done_ok ss : forall x t nd lg,
+  (forall x', x_res x' = x_res x -> x_inb x' = x_inb x -> x_start x' = x_start x -> done_spec rdone x' t) ->
   gen_run_done ss x t nd lg = run_done ss x t nd lg.
 Proof.
-  induction ss as [|s r IH]; intros x t nd lg Hr Hi H1 H2; [reflexivity|].
+  induction ss as [|s r IH]; intros x t nd lg H; [reflexivity|].
   cbn [gen_run_done run_done]. rewrite chain_exit_step_ok. unfold a0.
   destruct (s_real s).
-  - rewrite (stat_OnCompleted_ok x nd ft t Hr Hi H1 H2). apply IH; assumption.
+  - rewrite (H x eq_refl eq_refl eq_refl nd). apply IH. intros x' E1 E2 E3. apply H; assumption.
   - destruct (sbeh_of s (x_flag x)); [apply IH; assumption | reflexivity].
 Qed.
 End Stats.
@@ -341,7 +355,7 @@ Record fst_t := { f_x : ctx; f_nd : nodes_t; f_lg : list call; f_er : list berr;
                   f_pan : bool }.          (* a slot panicked: control has left the function body *)
 
 Section Frame.
-Variables (ch : chain) (res : cslot -> Z) (isb : Z -> bool) (ft : Z).
+Variables (ch : chain) (res : cslot -> Z) (isb : Z -> bool) (rpass rblock : ctx -> nodes_t -> nodes_t).
 
 Definition frame_act (st : fst_t) (a : leaf_act) : fst_t :=
   if f_pan st then st else
@@ -366,7 +380,7 @@ Definition frame_act (st : fst_t) (a : leaf_act) : fst_t :=
   | (25, [LB b]) =>                                   (* ctx.outcomeReported = b *)
       {| f_x := set_rep x b; f_nd := f_nd st; f_lg := f_lg st; f_er := f_er st; f_brk := f_brk st; f_pan := false |}
   | (33, [LZ r]) =>                                   (* statistic loop, entered with ruleCheckRet = r *)
-      let '(nd3, lg3, pan) := gen_run_stats ft (stats ch) x (isb r) (blk_of (x_flag x) (f_brk st)) (f_nd st) (f_lg st) in
+      let '(nd3, lg3, pan) := gen_run_stats rpass rblock (stats ch) x (isb r) (blk_of (x_flag x) (f_brk st)) (f_nd st) (f_lg st) in
       {| f_x := x; f_nd := nd3; f_lg := lg3; f_er := f_er st; f_brk := f_brk st; f_pan := pan |}
   | _ => st
   end.
@@ -415,27 +429,27 @@ Lemma set_rep_blk x b : set_rep (set_blk x b) true = set_blk_rep x b.
 Proof. reflexivity. Qed.
 
 (* the statistic loop's mark *)
-Lemma frame_stat_mark ch res isb ft x2 be r nd lg2 er2 brk :
+Lemma frame_stat_mark ch res isb rpass rblock x2 be r nd lg2 er2 brk :
   blk_of (x_flag x2) brk = be -> isb r = (match be with Some _ => true | None => false end) ->
-  x_res x2 <> NILNODE -> x_inb x2 = (ft =? 0) ->
-  fold_left (frame_act ch res isb ft) (if 0 <? Z.of_nat (length (stats ch)) then [aZ 33 r] else [])
+  pass_spec rpass x2 -> block_spec rblock x2 ->
+  fold_left (frame_act ch res isb rpass rblock) (if 0 <? Z.of_nat (length (stats ch)) then [aZ 33 r] else [])
     {| f_x := x2; f_nd := nd; f_lg := lg2; f_er := er2; f_brk := brk; f_pan := false |} =
   let '(nd3, lg3, pan3) := run_stats (stats ch) x2 be nd lg2 in
   {| f_x := x2; f_nd := nd3; f_lg := lg3; f_er := er2; f_brk := brk; f_pan := pan3 |}.
 Proof.
   intros Hb Hi' Hr Hi. destruct (0 <? Z.of_nat (length (stats ch))) eqn:L.
   - cbn [fold_left]. unfold frame_act. cbn [f_pan f_x f_lg f_nd f_er f_brk aZ]. rewrite Hb, Hi'.
-    rewrite (gen_run_stats_ok ft (stats ch) x2 be nd lg2 Hr Hi).
+    rewrite (gen_run_stats_ok rpass rblock (stats ch) x2 be nd lg2 Hr Hi).
     destruct (run_stats (stats ch) x2 be nd lg2) as [[nd3 lg3] pan3]. reflexivity.
   - apply len0 in L. rewrite L. reflexivity.
 Qed.
 
-Theorem gen_chain_entry_ok ch res isb ft pooled x nd er :
+Theorem gen_chain_entry_ok ch res isb rpass rblock pooled x nd er :
   Forall (res_ok res isb (x_flag x)) (checks ch) -> pooled <> 0 -> isb pooled = false ->
-  x_res x <> NILNODE -> x_inb x = (ft =? 0) ->
-  gen_chain_entry ch res isb ft pooled x nd er = chain_entry ch x nd er.
+  (forall x', x_res x' = x_res x -> x_inb x' = x_inb x -> pass_spec rpass x' /\ block_spec rblock x') ->
+  gen_chain_entry ch res isb rpass rblock pooled x nd er = chain_entry ch x nd er.
 Proof.
-  intros HF Hp Hpb Hr Hi. unfold gen_chain_entry, chain_entry.
+  intros HF Hp Hpb Hspec. unfold gen_chain_entry, chain_entry.
   pose proof (gen_run_checks_ok res isb (x_flag x) (checks ch) HF 0 []) as H0.
   destruct (gen_run_checks res isb (x_flag x) (checks ch) 0 []) as [[[rc brk0] lg0] pan0] eqn:E0.
   rewrite chain_Entry_frame_ok by apply Nat2Z.is_nonneg. unfold entry_frame_spec.
@@ -444,9 +458,9 @@ Proof.
   pose proof (run_preps_keeps (preps ch) x []) as PF.
   destruct (run_preps (preps ch) x []) as [[x1 lg1] pan1] eqn:E1. cbn [fst] in PF. cbv zeta in PF.
   destruct PF as (PF & Hr1' & Hi1').
-  assert (Hr1 : x_res x1 <> NILNODE) by (rewrite Hr1'; exact Hr).
-  assert (Hi1 : x_inb x1 = (ft =? 0)) by (rewrite Hi1'; exact Hi).
-  assert (S1 : fold_left (frame_act ch res isb ft)
+  assert (Hs1 : forall b, pass_spec rpass (set_blk_rep x1 b) /\ block_spec rblock (set_blk_rep x1 b))
+    by (intros b; apply Hspec; cbn [x_res x_inb set_blk_rep]; assumption).
+  assert (S1 : fold_left (frame_act ch res isb rpass rblock)
                  ([a0 20] ++ (if 0 <? Z.of_nat (length (preps ch)) then [a0 31] else []))
                  {| f_x := x; f_nd := nd; f_lg := []; f_er := er; f_brk := None; f_pan := false |} =
                {| f_x := x1; f_nd := nd; f_lg := lg1; f_er := er; f_brk := None; f_pan := pan1 |}).
@@ -454,7 +468,7 @@ Proof.
     - cbn [app fold_left]. unfold frame_act at 2. cbn [f_pan a0]. unfold frame_act. cbn [f_pan f_x f_lg f_nd f_er f_brk a0].
       rewrite P1. reflexivity.
     - apply len0 in L. rewrite L in E1. cbn in E1. inversion E1; subst. reflexivity. }
-  assert (SK : forall tr st, f_pan st = true -> fold_left (frame_act ch res isb ft) tr st = st).
+  assert (SK : forall tr st, f_pan st = true -> fold_left (frame_act ch res isb rpass rblock) tr st = st).
   { induction tr as [|a tr IHt]; intros st Hs; [reflexivity|]. cbn [fold_left]. unfold frame_act at 2. rewrite Hs. apply IHt, Hs. }
   rewrite app_assoc, fold_left_app, S1. clear S1.
   destruct pan1.
@@ -465,7 +479,7 @@ Proof.
   pose proof (gen_run_checks_ok res isb (x_flag x1) (checks ch) HF 0 lg1) as H2.
   destruct (gen_run_checks res isb (x_flag x1) (checks ch) 0 lg1) as [[[rc2 brk] lg2] pan2] eqn:E2.
   destruct H2 as (R2 & RC2 & B2). rewrite R2.
-  assert (S2 : fold_left (frame_act ch res isb ft) (if 0 <? Z.of_nat (length (checks ch)) then [aZ 32 0] else [])
+  assert (S2 : fold_left (frame_act ch res isb rpass rblock) (if 0 <? Z.of_nat (length (checks ch)) then [aZ 32 0] else [])
                  {| f_x := x1; f_nd := nd; f_lg := lg1; f_er := er; f_brk := None; f_pan := false |} =
                {| f_x := x1; f_nd := nd; f_lg := lg2; f_er := er; f_brk := brk; f_pan := pan2 |}).
   { destruct (0 <? Z.of_nat (length (checks ch))) eqn:L.
@@ -488,25 +502,25 @@ Proof.
     destruct B2 as (Hin & e & Hc). pose proof (proj1 (Forall_forall _ _) HF c Hin) as Hok. unfold res_ok in Hok. rewrite Hc in Hok.
     destruct Hok as [Hn Hb]. subst rc2. apply Z.eqb_neq in Hn. rewrite Hn.
     cbn [app fold_left blk_of]. rewrite Hc.
-    assert (S3 : frame_act ch res isb ft (frame_act ch res isb ft
+    assert (S3 : frame_act ch res isb rpass rblock (frame_act ch res isb rpass rblock
                    {| f_x := x1; f_nd := nd; f_lg := lg2; f_er := er; f_brk := Some c; f_pan := false |} (aZ 24 (res c))) (aB 25 true) =
                  {| f_x := set_blk_rep x1 (Some (Z.of_nat (length er))); f_nd := nd; f_lg := lg2; f_er := er ++ [e];
                     f_brk := Some c; f_pan := false |}).
     { unfold frame_act. cbn [f_pan f_x f_lg f_nd f_er f_brk aZ aB blk_of]. rewrite Hc. cbn [f_pan f_x f_lg f_nd f_er f_brk]. reflexivity. }
     rewrite S3. clear S3.
-    rewrite (frame_stat_mark ch res isb ft (set_blk_rep x1 (Some (Z.of_nat (length er)))) (Some e) (res c) nd lg2 (er ++ [e]) (Some c));
-      [| cbn [blk_of x_flag set_blk_rep]; rewrite Hc; reflexivity | exact Hb | exact Hr1 | exact Hi1].
+    rewrite (frame_stat_mark ch res isb rpass rblock (set_blk_rep x1 (Some (Z.of_nat (length er)))) (Some e) (res c) nd lg2 (er ++ [e]) (Some c));
+      [| cbn [blk_of x_flag set_blk_rep]; rewrite Hc; reflexivity | exact Hb | apply Hs1 | apply Hs1].
     destruct (run_stats (stats ch) (set_blk_rep x1 (Some (Z.of_nat (length er)))) (Some e) nd lg2) as [[nd3 lg3] pan3].
     cbn [f_pan f_x f_nd f_lg f_er]. rewrite chain_Entry_recover_ok, Hn. destruct pan3; reflexivity.
   - (* passed *)
     subst rc2. cbn [Z.eqb app fold_left blk_of].
-    assert (S3 : frame_act ch res isb ft (frame_act ch res isb ft
+    assert (S3 : frame_act ch res isb rpass rblock (frame_act ch res isb rpass rblock
                    {| f_x := x1; f_nd := nd; f_lg := lg2; f_er := er; f_brk := None; f_pan := false |} (a0 23)) (aB 25 true) =
                  {| f_x := set_blk_rep x1 None; f_nd := nd; f_lg := lg2; f_er := er; f_brk := None; f_pan := false |}).
     { unfold frame_act. cbn [f_pan f_x f_lg f_nd f_er f_brk a0 aB]. reflexivity. }
     rewrite S3. clear S3.
-    rewrite (frame_stat_mark ch res isb ft (set_blk_rep x1 None) None pooled nd lg2 er None);
-      [| reflexivity | exact Hpb | exact Hr1 | exact Hi1].
+    rewrite (frame_stat_mark ch res isb rpass rblock (set_blk_rep x1 None) None pooled nd lg2 er None);
+      [| reflexivity | exact Hpb | apply Hs1 | apply Hs1].
     destruct (run_stats (stats ch) (set_blk_rep x1 None) None nd lg2) as [[nd3 lg3] pan3].
     cbn [f_pan f_x f_nd f_lg f_er]. rewrite chain_Entry_recover_ok. apply Z.eqb_neq in Hp. rewrite Hp. destruct pan3; reflexivity.
 Qed.
@@ -519,20 +533,20 @@ Qed.
    the `match x_blk x1 with Some _ => ... | None => run_done ...` of the model's do_exit.
    References: the context's entry is x_entry + 1 (0 = nil), its result object is never nil (1),
    the result's status is 1 (blocked) iff x_blk is set. *)
-Definition gen_chain_exit (ft : Z) (ch : chain) (x : ctx) (t : Z) (nd : nodes_t) (lg : list call) : nodes_t * list call * bool :=
+Definition gen_chain_exit (rdone : ctx -> Z -> nodes_t -> ctx * nodes_t) (ch : chain) (x : ctx) (t : Z) (nd : nodes_t) (lg : list call) : nodes_t * list call * bool :=
   let status := match x_blk x with Some _ => 1 | None => 0 end in
   match chain_exit (ctx_IsBlocked 1 (tokenResult_IsBlocked status)) (x_entry x + 1) false with
   | [] => (nd, lg, false)
-  | [(33, [])] => gen_run_done ft (stats ch) x t nd lg
+  | [(33, [])] => gen_run_done rdone (stats ch) x t nd lg
   | _ => (nd, lg, true)
   end.
 
-Theorem gen_chain_exit_ok ft ch x t nd lg : x_entry x <> -1 -> x_res x <> NILNODE -> x_inb x = (ft =? 0) ->
-  0 <= x_start x <= t -> t < two63 ->
-  gen_chain_exit ft ch x t nd lg =
+Theorem gen_chain_exit_ok rdone ch x t nd lg : x_entry x <> -1 ->
+  (forall x', x_res x' = x_res x -> x_inb x' = x_inb x -> x_start x' = x_start x -> done_spec rdone x' t) ->
+  gen_chain_exit rdone ch x t nd lg =
   match x_blk x with Some _ => (nd, lg, false) | None => run_done (stats ch) x t nd lg end.
 Proof.
-  intros He Hr Hi H1 H2. unfold gen_chain_exit. rewrite chain_exit_ok, ctx_IsBlocked_ok, tokenResult_IsBlocked_ok.
+  intros He Hd. unfold gen_chain_exit. rewrite chain_exit_ok, ctx_IsBlocked_ok, tokenResult_IsBlocked_ok.
   assert (E : (x_entry x + 1 =? 0) = false) by (apply Z.eqb_neq; lia). rewrite E.
   destruct (x_blk x); cbn [orb Z.eqb]; [reflexivity|]. unfold a0. apply gen_run_done_ok; assumption.
 Qed.
@@ -573,10 +587,52 @@ Proof.
   destruct (cbeh_of c flag); cbn; auto; split; auto; discriminate.
 Qed.
 
-Corollary gen_chain_entry_std ch ft x nd er : x_res x <> NILNODE -> x_inb x = (ft =? 0) ->
-  gen_chain_entry ch (res_std (x_flag x)) isb_std ft 4 x nd er = chain_entry ch x nd er.
+(* ---------------------------------------------------------------------------------- *)
+(* 5. the real statistic slot = the regenerated stat.Slot (C01_leaf_check)               *)
+
+Definition gen_rpass (ft : Z) (x : ctx) (nd : nodes_t) : nodes_t :=
+  snd (slot_acts stat_recordPassFor stat_recordBlockFor stat_recordCompleteFor (stat_OnEntryPassed (x_batch x) ft INB (node_id x)) (x, nd)).
+Definition gen_rblock (ft : Z) (x : ctx) (nd : nodes_t) : nodes_t :=
+  snd (slot_acts stat_recordPassFor stat_recordBlockFor stat_recordCompleteFor (stat_OnEntryBlocked (x_batch x) ft INB (node_id x)) (x, nd)).
+Definition gen_rdone (ft : Z) (x : ctx) (t : Z) (nd : nodes_t) : ctx * nodes_t :=
+  slot_acts stat_recordPassFor stat_recordBlockFor stat_recordCompleteFor (stat_OnCompleted (x_batch x) (x_err x) ft INB t (x_start x) (node_id x)) (x, nd).
+
+Lemma gen_rpass_ok ft x : x_res x <> NILNODE -> x_inb x = (ft =? 0) -> pass_spec (gen_rpass ft) x.
+Proof. intros Hr Hi nd. unfold gen_rpass. rewrite (stat_OnEntryPassed_ok x nd ft Hr Hi). reflexivity. Qed.
+Lemma gen_rblock_ok ft x : x_res x <> NILNODE -> x_inb x = (ft =? 0) -> block_spec (gen_rblock ft) x.
+Proof. intros Hr Hi nd. unfold gen_rblock. rewrite (stat_OnEntryBlocked_ok x nd ft Hr Hi). reflexivity. Qed.
+Lemma gen_rdone_ok ft x t : x_res x <> NILNODE -> x_inb x = (ft =? 0) -> 0 <= x_start x <= t -> t < two63 ->
+  done_spec (gen_rdone ft) x t.
+Proof. intros Hr Hi H1 H2 nd. unfold gen_rdone. exact (stat_OnCompleted_ok x nd ft t Hr Hi H1 H2). Qed.
+
+(* the loops, SlotChain.Entry and SlotChain.exit with the regenerated statistic slot *)
+Corollary gen_run_stats_std ft ss x be nd lg : x_res x <> NILNODE -> x_inb x = (ft =? 0) ->
+  gen_run_stats (gen_rpass ft) (gen_rblock ft) ss x (match be with Some _ => true | None => false end) be nd lg =
+  run_stats ss x be nd lg.
+Proof. intros Hr Hi. apply gen_run_stats_ok; [apply gen_rpass_ok | apply gen_rblock_ok]; assumption. Qed.
+
+Corollary gen_run_done_std ft ss x t nd lg : x_res x <> NILNODE -> x_inb x = (ft =? 0) ->
+  0 <= x_start x <= t -> t < two63 ->
+  gen_run_done (gen_rdone ft) ss x t nd lg = run_done ss x t nd lg.
 Proof.
-  intros Hr Hi. apply gen_chain_entry_ok; [apply res_std_ok | discriminate | reflexivity | exact Hr | exact Hi].
+  intros Hr Hi H1 H2. apply gen_run_done_ok. intros x' E1 E2 E3.
+  apply gen_rdone_ok; rewrite ?E1, ?E2, ?E3; assumption.
+Qed.
+
+Corollary gen_chain_entry_std ch ft x nd er : x_res x <> NILNODE -> x_inb x = (ft =? 0) ->
+  gen_chain_entry ch (res_std (x_flag x)) isb_std (gen_rpass ft) (gen_rblock ft) 4 x nd er = chain_entry ch x nd er.
+Proof.
+  intros Hr Hi. apply gen_chain_entry_ok; [apply res_std_ok | discriminate | reflexivity |].
+  intros x' E1 E2. split; [apply gen_rpass_ok | apply gen_rblock_ok]; rewrite ?E1, ?E2; assumption.
+Qed.
+
+Corollary gen_chain_exit_std ft ch x t nd lg : x_entry x <> -1 -> x_res x <> NILNODE -> x_inb x = (ft =? 0) ->
+  0 <= x_start x <= t -> t < two63 ->
+  gen_chain_exit (gen_rdone ft) ch x t nd lg =
+  match x_blk x with Some _ => (nd, lg, false) | None => run_done (stats ch) x t nd lg end.
+Proof.
+  intros He Hr Hi H1 H2. apply gen_chain_exit_ok; [exact He|]. intros x' E1 E2 E3.
+  apply gen_rdone_ok; rewrite ?E1, ?E2, ?E3; assumption.
 Qed.
 
 (* the parameters are positional: pin their NAMES *)
@@ -611,5 +667,8 @@ Print Assumptions gen_run_stats_ok.
 Print Assumptions gen_run_done_ok.
 Print Assumptions gen_chain_entry_ok.
 Print Assumptions gen_chain_entry_std.
+Print Assumptions gen_run_stats_std.
+Print Assumptions gen_run_done_std.
+Print Assumptions gen_chain_exit_std.
 Print Assumptions gen_chain_exit_ok.
 Print Assumptions gen_run_handlers_ok.
